@@ -1,4 +1,5 @@
 import BsVerif.Lemmas.Lines
+import BsVerif.Lemmas.LinesClosest
 /-!
 # C04 — address ↔ source answers agree with the line table and the function ranges
 
@@ -448,6 +449,49 @@ theorem C04_fn_to_addr_counterexample_same_address :
     (prologEndPlace #[cexUnit] [⟨0x20, 0x30⟩]).map (·.2.2.addr) = some 0x30 := by decide
 
 /-! ## file:line → breakpoint places (`find_closest_place`) -/
+
+/-- a place `(unit, row index, row)` is an is_stmt row of `path:l`: stored in that unit, its file index denotes `path` -/
+def IsStmtRowOf (units : Array CUnit) (path l : Nat) (p : Nat × Nat × Row) : Prop :=
+  ∃ (un : CUnit) (f : Nat), units[p.1]? = some un ∧ un.files[f]? = some path ∧ un.rows[p.2.1]? = some p.2.2 ∧
+    p.2.2.file = f ∧ p.2.2.stmt = true ∧ p.2.2.line = l
+
+theorem closestPass_isStmtRow (units : Array CUnit) (path needle : Nat) (seen : List Key) :
+    ∀ p ∈ (closestPass units needle (filesOf units path) seen []).2, IsStmtRowOf units path needle p := by
+  intro p hp
+  rcases closestPass_sound units needle _ _ _ p hp with h | ⟨fl, un, h1, h2, h3⟩
+  · cases h
+  · obtain ⟨un', f, hu, hf, hfl⟩ := filesOf_mem units path p.1 fl h1
+    rw [h2] at hu; injection hu with hu; subst hu
+    obtain ⟨g1, ⟨t, g2⟩, g3, g4⟩ := h3
+    subst hfl
+    obtain ⟨r, hr, hrf⟩ := fileLines_mem un.rows f t p.2.1 g2
+    simp only [] at g1
+    rw [g1] at hr; injection hr with hr
+    exact ⟨un, f, h2, hf, g1, by rw [hr]; exact hrf, g3, g4⟩
+
+/-- **C04_line_to_addrs_sound.** Every place `find_closest_place(path, line)` returns is an is_stmt row of `line` in that
+file — or of `line + 1`, and then only when the pass for `line` selected nothing at all. -/
+theorem C04_line_to_addrs_sound (units : Array CUnit) (path line : Nat) :
+    ∀ p ∈ findClosestPlace units path line,
+      IsStmtRowOf units path line p ∨
+      (IsStmtRowOf units path (line + 1) p ∧ (closestPass units line (filesOf units path) [] []).2 = []) := by
+  intro p hp
+  unfold findClosestPlace at hp
+  simp only [] at hp
+  cases hres : (closestPass units line (filesOf units path) [] []) with
+  | mk seen res =>
+    rw [hres] at hp
+    simp only [] at hp
+    cases res with
+    | cons a rest =>
+      simp only [List.isEmpty_cons, Bool.not_false, if_true] at hp
+      left
+      apply closestPass_isStmtRow units path line []
+      rw [hres]; exact hp
+    | nil =>
+      simp only [List.isEmpty_nil, Bool.not_true, Bool.false_eq_true, if_false] at hp
+      right
+      exact ⟨closestPass_isStmtRow units path (line + 1) seen p hp, rfl⟩
 
 /-- completeness at full strength: every function that has an is_stmt row of the line (in the file) gets a place. -/
 def C04_line_to_addrs_complete_full : Prop :=
